@@ -683,7 +683,10 @@ pub fn c03(c: &mut Ctx) {
                 2 => t(a) * t(b),
                 3 => t(a) / t(b),
                 4 => t(a) * 0.1,
+                #[cfg(feature = "math")]
                 _ => (t(a) * t(a) + t(b)).sqrt(),
+                #[cfg(not(feature = "math"))]
+                _ => t(a) * t(a) + t(b),
             }));
             if let Ok(x) = res {
                 pool.offer(&mut c.rng, x);
